@@ -410,6 +410,18 @@ impl AllAuth {
             let funds: Vec<Coin> = merged.into_iter().filter(|(_, a)| *a > 0).map(|(d, a)| coin(a, d)).collect();
             return Some((user.to_string(), vec![via_proxy(eff, msgs, funds)]));
         }
+        // the vault router as sender: it executes a flash-loan payload with itself as sender
+        if eff == self.h.vault_router {
+            let vlt = self.h.vaults.first()?;
+            let denom = match &vlt.asset {
+                AssetInfo::NativeToken { denom } => denom.clone(),
+                _ => return None,
+            };
+            let amount = 100_000u128;
+            let mut top = vec![bank_send(&self.h.vault_router, amount / 5 + 10, &denom)];
+            top.push(wasm_exec(&self.h.vault_router, &vault_router::ExecuteMsg::FlashLoan { assets: vec![Asset { info: vlt.asset.clone(), amount: Uint128::new(amount) }], msgs }, vec![]));
+            return Some((user.to_string(), top));
+        }
         // a factory as sender: only through its forwarding message
         if let Some((fac, fwd)) = &inner.fwd {
             if eff == fac {
@@ -975,7 +987,11 @@ impl AllAuth {
                 _ => return None,
             },
             Role::Sibling => {
-                if rng.chance(3, 4) {
+                // the vault router runs a borrower's payload with itself as sender: towards its own
+                // entry points it is then "a contract" like any other
+                if d.ct == Ct::VaultRouter && rng.chance(1, 2) {
+                    self.h.vault_router.clone()
+                } else if rng.chance(3, 4) {
                     self.h.proxy.clone()
                 } else {
                     self.h.proxy2.clone()
